@@ -197,6 +197,12 @@ pub fn entailed<VS: HSet>(concl: &Clause<VS>, premises: &[Clause<VS>], choices: 
         }
     }
     let pkgs: Vec<String> = pkgs.into_iter().collect();
+    // too large to enumerate: not decided; counted, and reported in the statistics
+    let total = pkgs.iter().fold(1u64, |a, p| a.saturating_mul(choices(p).len().max(1) as u64));
+    if total > 60_000 {
+        ENTAIL_SKIPPED.with(|c| c.set(c.get() + 1));
+        return true;
+    }
     let mut sels: Vec<BTreeMap<String, Option<u32>>> = vec![BTreeMap::new()];
     for p in &pkgs {
         let cs = choices(p);
@@ -209,7 +215,7 @@ pub fn entailed<VS: HSet>(concl: &Clause<VS>, premises: &[Clause<VS>], choices: 
             }
         }
         sels = next;
-        if sels.len() > 300_000 {
+        if sels.len() > 60_000 {
             // too large to enumerate: not decided; counted, and reported in the statistics
             ENTAIL_SKIPPED.with(|c| c.set(c.get() + 1));
             return true;
